@@ -90,9 +90,11 @@ def run(ctx):
                                   cls.__name__, _py(cfg['fg']), _kwargs(cfg), outc, want))
         if not ent['valid']:
             continue
+        o1, fmt = _make(cfg, ColorFmt)
+        o2, bfmt = _make(cfg, ColorBytes)
+        if o1 != 'ok' or o2 != 'ok':
+            continue                      # already reported above
         valid_cfgs.append(cfg)
-        fmt = ColorFmt(_py(cfg['fg']), **_kwargs(cfg))
-        bfmt = ColorBytes(_py(cfg['fg']), **_kwargs(cfg))
         text = TEXTS[n % len(TEXTS)] if n % 7 else 'ab'
         chunk = fmt(text)
         s = str(chunk)
@@ -111,12 +113,22 @@ def run(ctx):
         for _ in range(k):
             cfg = ctx.rnd.choice(valid_cfgs)
             parts.append((cfg, ctx.rnd.choice(TEXTS)))
-        t = CHText(*[ColorFmt(_py(c['fg']), **_kwargs(c))(x) for c, x in parts])
+        if i % 6 == 0:
+            parts[1] = (parts[0][0], parts[1][1])       # two consecutive parts of the same colour (they get merged)
+        if i % 3 == 0:
+            # the same text grown step by step, looked at (str, format) before every extension
+            t = CHText()
+            for c, x in parts:
+                str(t)
+                format(t, '')
+                t += ColorFmt(_py(c['fg']), **_kwargs(c))(x)
+        else:
+            t = CHText(*[ColorFmt(_py(c['fg']), **_kwargs(c))(x) for c, x in parts])
         s = str(t)
         cases.append({'chunks': [{'cfg': c, 'text': [ord(ch) for ch in x]} for c, x in parts], 'items': _items(s),
                       'bitems': _items(s), 'stripped': [ord(c) for c in CHText.strip_colors(s)],
                       'plain': [ord(c) for c in t.plain_text()]})
-        meta.append({'kind': 'text', 'parts': parts, 'str': s})
+        meta.append({'kind': 'text', 'parts': parts, 'str': s, 'grown': i % 3 == 0})
     # negative self-tests
     # (synthetic traces, independent of what the code under test emits)
     red = {'fg': {'t': 'name', 'n': 1}, 'bg': {'t': 'none'}, 'eff': [], 'nocolor': False}
@@ -193,7 +205,14 @@ def replay(ctx, case):
         parts = [(case['cfg'], case['text'])]
     else:
         parts = case['parts']
-    t = CHText(*[ColorFmt(_py(c['fg']), **_kwargs(c))(x) for c, x in parts])
+    if case.get('grown'):
+        t = CHText()
+        for c, x in parts:
+            str(t)
+            format(t, '')
+            t += ColorFmt(_py(c['fg']), **_kwargs(c))(x)
+    else:
+        t = CHText(*[ColorFmt(_py(c['fg']), **_kwargs(c))(x) for c, x in parts])
     s = str(t)
     c = {'chunks': [{'cfg': cf, 'text': [ord(ch) for ch in x]} for cf, x in parts], 'items': _items(s),
          'bitems': _items(s), 'stripped': [ord(ch) for ch in CHText.strip_colors(s)],
